@@ -19,6 +19,7 @@ class Interp(StmtMixin, ExtMixin, OpsMixin, InterpCore):
         InterpCore.__init__(self, program, **kw)
         self.loop_stack = []
         self.ext_methods = {}     # (external base class name, method) -> python model f(interp, inst, args, kwargs)
+        self.ext_methods[("Formatter", "format")] = _formatter_format
         self.proxy_store = {}
         self.sticky = 0
         self.at_function_tail = True
@@ -838,6 +839,42 @@ class MatchModel(object):
 
     def m_group(self, I, args, kwargs):
         return Const(self.m.group(int(args[0].const()) if args else 0))
+
+
+def _formatter_format(I, inst, args, kwargs):
+    """string.Formatter.format(fmt, *args, **kwargs): what fmt.format(*args, **kwargs) gives, then the subclass's
+    check_unused_args(used fields, args, kwargs) hook; the other hooks must not be overridden"""
+    import string as _string
+    if not args or not (isinstance(args[0], Const) and isinstance(args[0].v, str)):
+        raise AnalysisError("string.Formatter.format with a format string that is not a literal")
+    for hook in ("vformat", "_vformat", "parse", "get_field", "get_value", "format_field", "convert_field"):
+        if inst.ci.lookup(hook) is not None:
+            raise AnalysisError("string.Formatter subclass overrides %s (not modelled)" % hook)
+    fmt, rest = args[0], list(args[1:])
+    try:
+        fields = list(_string.Formatter().parse(fmt.v))
+    except ValueError as e:
+        raise RaiseSignal(ExcV(ExtV("builtins.ValueError"), [Const(str(e))]), None)
+    used, auto = [], 0
+    for _lit, name, _spec, _conv in fields:
+        if name is None:
+            continue
+        head = name.split(".")[0].split("[")[0]
+        if head == "":
+            head = str(auto)
+            auto += 1
+        used.append(Num(ep.const(int(head))) if head.isdigit() else Const(head))
+    out = I.str_format(fmt, rest, dict(kwargs), None)
+    chk = inst.ci.lookup("check_unused_args")
+    if chk is not None:
+        kw = DictV()
+        for k, v in kwargs.items():
+            kw.items[Const(k).key()] = (Const(k), v)
+        seen = {}
+        for u in used:
+            seen.setdefault(u.key(), u)
+        I.call_function(FuncV(chk, selfv=inst), [ListV(list(seen.values()), "set"), ListV(rest, "tuple"), kw], {}, None)
+    return out
 
 
 class SymIterV(V):
